@@ -9,7 +9,7 @@ WEIGHTS = {'newc': 1, 'newp': 0.4, 'cc': 4, 'cp': 3, 'pc': 3, 'pp': 4, 'remove':
 
 def make_cases(chk):
     n = 40 if chk.tier == 'quick' else 400
-    hi = 12 if chk.tier == 'quick' else 30
+    hi = 12 if chk.tier == 'quick' else 16     # the model's exact rationals grow with the length of a history: more histories, not longer ones
     gens = []
     for i in range(n):
         rng = random.Random(chk.seed * 100003 + 50000 + i)
